@@ -281,13 +281,112 @@ Qed.
 
 (* ================================================================ pvAdd *)
 
-Lemma pv_add_perm raw vals : exists vals1, pv_add raw vals = vals1 ++ [raw] /\ Permutation vals1 vals.
+(* ---------------------------------------------------------------- the GENERATED decision of pvAdd *)
+
+(* what the translated pvAdd computes, without the 64-bit wraps: they are identities because a segment index at a
+   boundary is >= 1 and the completed segment is not longer than the array (finite facts, checked for every
+   boundary below max_vals) *)
+Local Open Scope Z_scope.
+Definition chk3 (m : nat) : bool :=
+  let z := 64 * Z.of_nat m in
+  let p := Gen_Segments.GetSegItemIndexes z in
+  if Z.eqb (snd p) 0
+  then Z.leb 1 (fst p) && Z.ltb (fst p) 4096 && Z.leb (Gen_Segments.GetItemCount (fst p - 1)) z
+  else true.
+Lemma chk3_all : forallb chk3 (seq 1 4095) = true.
+Proof. vm_compute. reflexivity. Qed.
+
+Definition range_Z (z : Z) : Z * Z :=
+  if Z.ltb 0 z && Z.eqb (z mod 64) 0 then
+    let p := Gen_Segments.GetSegItemIndexes z in
+    if Z.eqb (snd p) 0 then (z - Gen_Segments.GetItemCount (fst p - 1), z) else (0, 0)
+  else (0, 0).
+
+Lemma pvAdd_range_Z z : 0 <= z < Z.of_nat max_vals -> Gen_MultiHashOps.pvAdd 0 0 z = range_Z z.
 Proof.
-  unfold pv_add.
-  destruct (Nat.ltb 0 (length vals) && Nat.eqb (length vals mod 64) 0); [|eexists; split; reflexivity].
-  destruct (Nat.eqb (snd (seg_item_indexes (length vals))) 0); [|eexists; split; reflexivity].
-  eexists; split; [reflexivity|].
-  etransitivity; [apply Permutation_app_head; apply isort_perm|]. rewrite firstn_skipn. reflexivity.
+  intros Hz. unfold Gen_MultiHashOps.pvAdd, range_Z, Gen_MultiHashOps.logInitialSegmentSize.
+  replace (wrapU 64 (Z.shiftl 1 6 - 1)) with (Z.ones 6) by reflexivity.
+  rewrite Z.land_ones by lia. change (2 ^ 6) with 64. rewrite Z.gtb_ltb.
+  destruct (Z.ltb_spec 0 z) as [Hpos|Hpos]; cbn [andb]; [|reflexivity].
+  destruct (Z.eqb_spec (z mod 64) 0) as [Hmod|Hmod]; [|reflexivity].
+  cbv zeta.
+  assert (Hm : exists m, (1 <= m < 4096)%nat /\ z = 64 * Z.of_nat m).
+  { exists (Z.to_nat (z / 64)). pose proof (Z.div_mod z 64 ltac:(lia)) as E. rewrite Hmod in E.
+    assert (0 < z / 64 < 4096) by (unfold max_vals in Hz; lia). split; [lia|]. rewrite Z2Nat.id by lia. lia. }
+  destruct Hm as (m & Hm & Ez).
+  pose proof chk3_all as H. rewrite forallb_forall in H. specialize (H m ltac:(apply in_seq; lia)).
+  unfold chk3 in H. cbv zeta in H. rewrite <- Ez in H.
+  destruct (Gen_Segments.GetSegItemIndexes z) as [si ri]. cbn [fst snd] in *.
+  destruct (Z.eqb ri 0); [|reflexivity].
+  apply andb_true_iff in H as [H H3]. apply andb_true_iff in H as [H1 H2].
+  apply Z.leb_le in H1, H3. apply Z.ltb_lt in H2.
+  pose proof (GetItemCount_nonneg (si - 1)) as Hnn.
+  rewrite (wrapU_small 64 (si - 1)) by lia.
+  rewrite (wrapU_small 64 (z - _)); [reflexivity|]. unfold max_vals in Hz. lia.
+Qed.
+
+Local Close Scope Z_scope.
+
+Definition hand_range (n : nat) : nat * nat :=
+  if Nat.ltb 0 n && Nat.eqb (n mod 64) 0 then
+    let si := seg_item_indexes n in
+    if Nat.eqb (snd si) 0 then (n - seg_size (fst si - 1), seg_size (fst si - 1)) else (0, 0)
+  else (0, 0).
+
+(* the translated decision = the hand-transcribed decision *)
+Lemma sort_range_is_hand n : n < max_vals -> sort_range n = hand_range n.
+Proof.
+  intros Hn. unfold sort_range. rewrite pvAdd_range_Z by lia. unfold range_Z, hand_range.
+  assert (Emod : (Z.of_nat n mod 64 = Z.of_nat (n mod 64))%Z) by (rewrite Nat2Z.inj_mod; reflexivity).
+  rewrite Emod.
+  destruct (Nat.ltb_spec 0 n) as [Hpos|Hpos]; destruct (Z.ltb_spec 0%Z (Z.of_nat n)); try lia; cbn [andb]; [|reflexivity].
+  destruct (Nat.eqb_spec (n mod 64) 0) as [Hmod|Hmod]; destruct (Z.eqb_spec (Z.of_nat (n mod 64)) 0%Z); try lia; [|reflexivity].
+  cbv zeta. rewrite sii_Z. cbn [fst snd].
+  pose proof (GSI_snd_nonneg (Z.of_nat n)) as Hsn.
+  (* the facts about this boundary, again from the finite check *)
+  assert (Hm : exists m, (1 <= m < 4096)%nat /\ (Z.of_nat n = 64 * Z.of_nat m)%Z).
+  { apply Nat.mod_divides in Hmod as [m Hm]; [|lia]. exists m. unfold max_vals in Hn. split; lia. }
+  destruct Hm as (m & Hm & Ez).
+  pose proof chk3_all as Hc. rewrite forallb_forall in Hc. specialize (Hc m ltac:(apply in_seq; lia)).
+  unfold chk3 in Hc. cbv zeta in Hc. rewrite <- Ez in Hc.
+  destruct (Gen_Segments.GetSegItemIndexes (Z.of_nat n)) as [si ri]. cbn [fst snd] in *.
+  destruct (Z.eqb_spec ri 0%Z) as [Er|Er]; destruct (Nat.eqb_spec (Z.to_nat ri) 0); try lia; [|reflexivity].
+  apply andb_true_iff in Hc as [Hc H3]. apply andb_true_iff in Hc as [H1 H2].
+  apply Z.leb_le in H1, H3. apply Z.ltb_lt in H2.
+  pose proof (GetItemCount_nonneg (si - 1)%Z) as Hnn.
+  assert (Es : seg_size (Z.to_nat si - 1) = Z.to_nat (Gen_Segments.GetItemCount (si - 1)%Z)).
+  { unfold seg_size. f_equal. f_equal. lia. }
+  rewrite Es. cbn [fst snd]. f_equal; lia.
+Qed.
+
+Lemma sort_slice_perm f d vals : Permutation (sort_slice f d vals) vals.
+Proof.
+  unfold sort_slice. rewrite <- (firstn_skipn f vals) at 4. apply Permutation_app_head.
+  rewrite <- (firstn_skipn d (skipn f vals)) at 3. apply Permutation_app_tail. apply isort_perm.
+Qed.
+
+Lemma pv_add_perm raw vals : exists vals1, pv_add raw vals = vals1 ++ [raw] /\ Permutation vals1 vals.
+Proof. unfold pv_add. eexists; split; [reflexivity|apply sort_slice_perm]. Qed.
+
+(* refinement: pv_add (driven by the generated decision) is the hand transcription of pvAdd *)
+Theorem pv_add_is_hand raw vals : length vals < max_vals -> pv_add raw vals = pv_add_hand raw vals.
+Proof.
+  intros Hlen. unfold pv_add, pv_add_hand. rewrite (sort_range_is_hand _ Hlen). unfold hand_range.
+  set (n := length vals) in *.
+  destruct (Nat.ltb 0 n && Nat.eqb (n mod 64) 0) eqn:Ec; [|reflexivity].
+  cbv zeta. destruct (Nat.eqb (snd (seg_item_indexes n)) 0) eqn:Es; [|reflexivity].
+  cbn [fst snd]. unfold sort_slice. f_equal.
+  set (sz := seg_size (fst (seg_item_indexes n) - 1)).
+  apply andb_true_iff in Ec as [Ec1 Ec2]. apply Nat.ltb_lt in Ec1. apply Nat.eqb_eq in Ec2, Es.
+  destruct (boundary_test n Ec1 Hlen Ec2) as [Hfwd _]. destruct (Hfwd Es) as (j & Hj & Hnj & Hf).
+  assert (Hsz : sz <= n).
+  { unfold sz. rewrite Hf. simpl Nat.sub. rewrite Nat.sub_0_r.
+    assert (Hl : seg_size j = lastsz seg_size 0 64 j).
+    { destruct j; [simpl; apply seg_size_0|]. rewrite lastsz_S. reflexivity. }
+    rewrite Hl, Hnj. apply lastsz_le. }
+  assert (Hl : length (skipn (n - sz) vals) = sz) by (rewrite skipn_length; unfold n in *; lia).
+  rewrite (firstn_all2 (n := sz) (skipn (n - sz) vals)) by lia.
+  rewrite (skipn_all2 (n := sz) (skipn (n - sz) vals)) by lia. rewrite app_nil_r. reflexivity.
 Qed.
 
 Theorem pv_add_preserves raw vals :
@@ -297,7 +396,8 @@ Proof.
   intros Hok Hlen. split.
   2:{ destruct (pv_add_perm raw vals) as (v1 & -> & Hp).
       etransitivity; [symmetry; apply Permutation_cons_append|]. apply perm_skip. exact Hp. }
-  unfold vals_ok, segs_ok in *. change first_seg with 64 in *. unfold pv_add.
+  rewrite (pv_add_is_hand raw vals Hlen).
+  unfold vals_ok, segs_ok in *. change first_seg with 64 in *. unfold pv_add_hand.
   set (n := length vals) in *.
   destruct (Nat.ltb_spec 0 n) as [Hpos|Hz]; cbn [andb].
   2:{ apply add_off_boundary; [exact Hok|]. intros j E. fold n in E.
